@@ -1,7 +1,7 @@
 (* C01 — point evaluation computes the function the expression denotes.
    Statements only. *)
-From Coq Require Import List Arith.
-From LF Require Import Base.Opcode Base.Num Base.Arena Base.Sem Tree.Build Tree.BuildSem Eval.Deck Eval.Batch Eval.DeckSem.
+From Coq Require Import Reals List Arith.
+From LF Require Import Base.Opcode Base.Num Base.Arena Base.Sem Tree.Build Tree.BuildSem Eval.Deck Eval.Batch Eval.DeckSem Base.RInst Tree.Flatten Tree.FlattenSem Tree.Optimize Tree.OptimizePure Eval.EvalDenotes.
 
 (* Batch evaluation is slot-wise: position k of a batch of any size (any
    count_simd, any stale contents in the other positions) is the single-point
@@ -32,3 +32,21 @@ Theorem C01_deck_correct :
     = val O osem a root {| ex := x; ey := y; ez := z; ev := vars |}.
 Proof. exact @deck_correct. Qed.
 Print Assumptions C01_deck_correct.
+
+(* The whole pipeline of Deck(Tree) + ArrayEvaluator::value — construction-time
+   simplification (C07), flatten, affine / commutative optimisation, walk, slot
+   layout, leaves-to-root evaluation — returns the real-valued denotation of the
+   expression the client built: for every DAG of constants, X/Y/Z, free
+   variables, unary / binary operations, remap and apply nodes (any sharing and
+   nesting), every point and variable assignment, every interpretation of the
+   opcodes the rewriting never inspects. *)
+Theorem C01_eval_denotes : forall uf bf,
+  (forall x, bf OP_POW x 1%R = x) -> (forall x, bf OP_NTH_ROOT x 1%R = x) ->
+  forall osem oracle_at (a : arena R) i vars x y z,
+    arena_wf a -> base_ok (R_ops uf bf) a -> i < length a -> src_ok a i -> noT a i ->
+    let '(a', j) := optimized (R_ops uf bf) a i in
+    let d := mk_deck a' j in
+    tape_value (R_ops uf bf) oracle_at d (d_tape d) (d_root d) vars x y z
+    = val (R_ops uf bf) osem a i {| ex := x; ey := y; ez := z; ev := vars |}.
+Proof. exact eval_denotes. Qed.
+Print Assumptions C01_eval_denotes.
